@@ -237,8 +237,13 @@ def run(ctx):
             if c[0] == "intother" and Arg(4)(c[1]):
                 got["other"] = sorted(set(rd.kind for rd in ed.leads))
         key = "%s:%s" % (rule, f.id)
+        from rules.common import find_rel_edges
+        wide = [e for e in find_rel_edges(g, "Gt", Arg(4), Lit(1)) + find_rel_edges(g, "Ge", Arg(4), Lit(2))
+                if set(rd.kind for rd in e.leads) == {"err"} and g.dominates_accepts(e, ("err",))]
         if got.get("other") == ["err"] and set(k for k in got if k != "other") == {0, 1}:
             ctx.ok(rule, key, "agg_id matched at full width: 0 | 1 | otherwise Err", loc=f.loc)
+        elif wide:
+            ctx.ok(rule, key, "agg_id compared at full width: > 1 -> Err, dominating every accepting return", loc=f.loc)
         else:
             ctx.bad(rule, key, "Poplar1 verify_init does not refuse aggregator ids other than 0/1: %s" % got, loc=f.loc)
     except Skip:
